@@ -188,7 +188,24 @@ def num_rule(ctx: Ctx) -> None:
     arg = f.params[1]
     iff = next((n for n in f.node.body if isinstance(n, ast.If) and ast.unparse(n.test) == f"{arg}.startswith('0x')"), None)
     if iff is None:
-        raise AnalysisError("anchor vanished: the 0x split in ToyParser._value_to_int")
+        # no hex/decimal split: one conversion must then accept every spelling with its documented value
+        base = None
+        for n in ast.walk(f.node):
+            if isinstance(n, ast.Call) and (ast.unparse(n.func) == "int" or ast.unparse(n.func).endswith("._literal_to_int")):
+                base = 10 if ast.unparse(n.func) == "int" else 0
+                for k in n.keywords:
+                    if k.arg == "base" and isinstance(k.value, ast.Constant):
+                        base = k.value.value
+        if base is None:
+            raise AnalysisError("anchor vanished: conversion in ToyParser._value_to_int")
+        acc = int_accept(base)
+        L = Langs([src, acc], extra_chars="0x")
+        w = L.witness_not_in(L.dfa(src), L.dfa(acc))
+        # base 0 reads 0x.. as hex and rejects decimals with leading zeros; base 10/16 cannot read both kinds
+        r.check(w is None and base == 0 and False, "_value_to_int|single-conversion", f.loc(),
+                f"operands are converted by a single int(., base={base}); the grammar also accepts {w!r}, which that conversion rejects "
+                "(decimal operands may have leading zeros; hexadecimal ones carry the 0x prefix)")
+        return
 
     def conv(blk):
         for n in ast.walk(ast.Module(body=blk, type_ignores=[])):
